@@ -20,7 +20,7 @@ RULE = ('Hypothesis draws experiments: 1..3 instruments with different channel n
         'float files) with per-channel units from {empty, Channel, channel, RFI, rfi, a.u., A.U., au, AU, MEF, mef, '
         'Mef}, optionally padded with blanks, gate fractions {0.2,0.5,0.85,1}; tables are passed as DataFrames and, '
         'in a third of the cases, written to a workbook and read back.  Non-trivial = >=2 sample rows with '
-        'different unit assignments including a MEF channel and an untouched channel.')
+        'different unit assignments and a MEF-calibrated or an untouched channel.')
 ASSUMPTIONS = ['the oracle is the composition of the documented library calls written by hand in pbt/props/c10.py; the '
                "library's own lower-level functions are C03-C08/C12's business",
                'histogram scale: linear for the literal "Channel", logicle otherwise (as the UI documents); for other '
@@ -166,7 +166,9 @@ def _check(case, obs, base, FlowCal, xl):
                                                  'composition in %r: shape %r vs %r' % (
                                                      row['id'], row['units'], got.data_type, row['gate_fraction'], d, got.shape, g.shape))
         obs.label('dtype:' + got.data_type, *['units:' + v.strip().lower() for v in row['units'].values()])
-    obs.nontrivial = len(case['samples']) >= 2 and len(unit_sets) >= 2 and has_mef and has_untouched
+    obs.nontrivial = len(case['samples']) >= 2 and len(unit_sets) >= 2 and (has_mef or has_untouched)
+    if has_mef and has_untouched and len(unit_sets) >= 2:
+        obs.label('mef_and_untouched_channel')
     # ---- statistics
     with warnings.catch_warnings():
         warnings.simplefilter('ignore')
